@@ -50,6 +50,15 @@ def standin(tier, seed):
         a = rich_atoms(g, n)
         k = int(g.integers(1, n + 1))
         idx = g.permutation(n)[:k]
+        if r % 4 == 3 and n >= 3:
+            # index lists with a special shape that a "contiguous block" shortcut could mistake for a sorted range: the first entry
+            # is the number of atoms that remain, the last one is the last row, the middle is arbitrary (and not sorted)
+            k = int(g.integers(3, n + 1))
+            first, last = n - k, n - 1
+            rest = [i for i in range(n) if i not in (first, last)]
+            mid = g.permutation(rest)[: k - 2] if r % 8 == 3 else g.permutation([i for i in range(first + 1, last)])[: k - 2]
+            idx = np.array([first, *[int(i) for i in mid], last])
+            k = len(idx)
         if g.random() < 0.2:
             idx = idx.tolist()
         ref = a.copy()
@@ -72,7 +81,7 @@ def standin(tier, seed):
     nmol = 60 if tier == "quick" else 600
     for r in range(nmol):
         n = int(g.integers(1, 10))
-        a = Atoms(numbers=g.choice([1, 8], n), positions=g.uniform(0, 6, (n, 3)), cell=np.eye(3) * 6, pbc=bool(g.integers(0, 2)))
+        a = Atoms(numbers=g.choice([1, 8], n), positions=g.uniform(0, 6, (n, 3)), cell=np.eye(3) * 6, pbc=bool(g.integers(0, 2)) if r % 2 else [bool(x) for x in g.integers(0, 2, 3)])
         mode = r % 3
         if mode == 0:
             c = float(g.uniform(0.6, 2.2)); cutoff = c; cf = lambda i, j, c=c: c
@@ -86,7 +95,7 @@ def standin(tier, seed):
             cf = lambda i, j, d=d, sym=sym: d[tuple(sorted((sym[i], sym[j])))]
         sf = [None, 1, 2, (2, 3), (1, 4)][int(g.integers(0, 5))]
         default = None if g.random() < 0.4 else -g.integers(1, 9, n)
-        case = {"n": n, "cutoff": str(cutoff)[:60], "required_size": sf, "default": None if default is None else default.tolist(), "pbc": bool(a.pbc[0])}
+        case = {"n": n, "cutoff": str(cutoff)[:60], "required_size": sf, "default": None if default is None else default.tolist(), "pbc": [bool(x) for x in a.pbc]}
         V.case(case)
         try:
             lab = np.asarray(search_molecules(a, cutoff, required_size=sf, default_array=None if default is None else default.copy()))
@@ -109,6 +118,20 @@ def standin(tier, seed):
                     bad = f"atoms {i},{j}: labels {lab[i]},{lab[j]} but same component = {comp[i] == comp[j]}"
         if bad:
             V.add("search:partition", case, bad)
+    # a bond across ONE periodic face of a partially periodic cell (slab geometries): minimum image along the periodic axes only
+    for pbc in ([True, True, False], [True, False, False], [False, True, True], [False, False, True]):
+        for ax in range(3):
+            pos = np.full((4, 3), 3.0)
+            pos[0, ax], pos[1, ax] = 0.2, 5.7            # 0.5 apart through the face (if periodic), 5.5 apart otherwise
+            pos[2] = [3.0, 3.0, 3.0]; pos[3] = [3.0, 3.6, 3.0]
+            a = Atoms("H4", positions=pos, cell=np.eye(3) * 6, pbc=pbc)
+            for cutoff, cf in ((0.9, lambda i, j: 0.9), ([0.45] * 4, lambda i, j: 0.9)):
+                case = {"slab": True, "pbc": pbc, "axis": ax, "cutoff": str(cutoff)}
+                V.case(case)
+                lab = np.asarray(search_molecules(a, cutoff))
+                comp = uf_components(a, cf)
+                if any((lab[i] == lab[j]) != (comp[i] == comp[j]) for i in range(4) for j in range(4)):
+                    V.add("search:partition", case, f"labels {lab.tolist()} components {comp}")
     # structured geometries: chains and stars whose size exceeds / matches the filter
     for m in (2, 3, 4, 5, 6):
         for shape in ("chain", "star"):
